@@ -12,6 +12,7 @@ import os
 import random
 from typing import Any, Dict, List, Optional, Tuple
 
+import c19_gen
 import pyside
 import pywire
 import schema_gen as sg
@@ -211,6 +212,15 @@ def run(ck: Check) -> None:
             cases.append((s, [sg.value_from_json(s.top, v) for v in j.get("values", [])],
                           "known-finding-witness:" + kf["key"]))
     n_corpus = len(cases)
+    # directed classes (tools/c19_gen.py): Go-defined identifiers as field names, array pairs with
+    # coinciding bit totals, alias chains with 5..8 array dimensions
+    n_dir = 8 if ck.quick else 80
+    for cname, fn in c19_gen.CLASSES:
+        for k in range(n_dir):
+            rng = random.Random(f"{ck.prop}:{ck.seed}:{cname}:{k}")
+            s = fn(rng)
+            vals = [sg.gen_value(s.top, rng, m) for m in (["random"] if ck.quick else ["random", "max", "min"])]
+            cases.append((s, vals, f"{cname}#{k}"))
     n_invalid = 0
     for c in pywire.gen_cases(ck, ns, nv):
         if generator_invalid(c[0]):
@@ -226,6 +236,7 @@ def run(ck: Check) -> None:
     distinct = set()
     impl_fail = 0
     t1_fail: Dict[int, str] = {}
+    n_struct = 0
     for i, ((s, vals, origin), r) in enumerate(zip(cases, results)):
         if "go" not in r or "py" not in r:
             impl_fail += 1
@@ -239,6 +250,13 @@ def run(ck: Check) -> None:
         try:
             g1 = t1_go.GoT1(r["go"])
             gterm, info = g1.message(g1.files[base], go_msg_name(g1, base, s.top, top_name))
+        except t1_go.T1Mismatch as e:
+            n_struct += 1
+            ck.violation("emitted Go does not describe the schema's message: the accessor methods contradict the "
+                         "struct declared in the same file: " + "; ".join(e.issues[:3]),
+                         {"schema": sg.schema_to_json(s), "origin": origin, "where": e.where, "issues": e.issues,
+                          "go": excerpt(r["go"])}, found_input=True)
+            continue
         except t1_go.T1Unresolved as e:
             cls = conv_type_outside_imports(s)
             if cls is None and origin == "known-finding-witness:go-missing-import":
@@ -339,7 +357,12 @@ def run(ck: Check) -> None:
     cov["rule"] = ("schemas from tools/schema_gen.py (resolved tree first: nesting, aliases of scalars and arrays, "
                    "enums, imports, extensible markers, permuted field numbers, widths weighted to "
                    "1,7,8,9,15,16,17,31,32,33,63,64); each compiled by the real compiler to Go and to Python; "
+                   "plus directed classes from tools/c19_gen.py (field names = identifiers the generated Go defines or "
+                   "predeclares, in snake/camel/Pascal/UPPER; array pairs with cap*(w2-w1) in {16,0} across "
+                   "extensible/plain and signed/unsigned in one Go type; alias chains with 5..8 array dimensions); "
                    "a case is one schema (distinct main-file texts counted; every schema has >= 1 field); per schema: "
+                   "the four accessors vs the struct declared in the same .go file (member, index depth = array "
+                   "rank, scalar/message kind), "
                    "emitted Go tables vs renderer model, vs emitted Python tables, sizes, and the Go runtime model "
                    "evaluated on the emitted tables for values in modes random/max/min: encode vs Spec.wire and "
                    "decode of the wire vs canon (norm t) v (the right-hand sides of the proved theorems "
@@ -347,7 +370,8 @@ def run(ck: Check) -> None:
     cov["tie"] = {**cov.get("tie", {}), "schemas": len(cases), "corpus": n_corpus,
                   "t1_parsed": len(cases) - impl_fail - len(t1_fail), "t1_rejected": len(t1_fail),
                   "codes": counts, "property_mismatches": n_prop, "model_mismatches": n_model,
-                  "impl_failures": impl_fail, "generator_invalid_skipped": n_invalid, "go_executed": False}
+                  "impl_failures": impl_fail, "accessor_vs_struct_mismatches": n_struct,
+                  "directed_classes": {c: n_dir for c, _ in c19_gen.CLASSES}, "generator_invalid_skipped": n_invalid, "go_executed": False}
     cov["distribution"] = sg.distribution([c[0] for c in cases])
     for (s, vals, origin), r in list(zip(cases, results))[:2]:
         if "go" in r:
